@@ -374,7 +374,10 @@ def execute(case, ctx):
             viol("no-write-without-approval", "files-changed-by-invalid-configuration", f"config {cfg}: changed {ks}\n{d}")
         return out
     if not sim.session_completed("plugin", res):
-        out["discards"]["session-did-not-complete(C18)"] = 1
+        if approved:
+            out["violations"].append(sim.completion_violation("plugin", res, f"config {cfg}"))
+        else:
+            out["discards"]["session-did-not-complete(C18)"] = 1
         return out
     if not approved:
         ctx.count("probe_approve_nothing_config")
